@@ -213,6 +213,7 @@ func TestVerifC26(t *testing.T) {
 	}
 	deadline := t0.Add(slice)
 	var cutBlocks int
+	var dropped int64
 	balenum.TuneGC(256 << 20)
 	workers := 16
 	fmt.Sscan(os.Getenv("VERIF_WORKERS"), &workers)
@@ -236,7 +237,7 @@ func TestVerifC26(t *testing.T) {
 			var lEvals, lStays, lUneven, lMoved int64
 			lPer := map[string]int64{}
 			lSweep := map[string]int64{}
-			distinct := balenum.NewHashSet(1 << 21)
+			distinct := balenum.NewHashSet(1 << 18) // bounded; refusals are counted
 			for j := range ch {
 				name := c26Name(j.coop)
 				shape := balenum.Hash64(fmt.Sprintf("%s|%d|%v|%v", name, j.blk.N, j.blk.Parts, j.blk.Subs))
@@ -288,6 +289,7 @@ func TestVerifC26(t *testing.T) {
 				perSweep[k] += v
 			}
 			distinct.Each(func(h uint64) { all[h] = struct{}{} })
+			dropped += distinct.Dropped
 			mu.Unlock()
 		}()
 	}
@@ -329,16 +331,17 @@ func TestVerifC26(t *testing.T) {
 		findings[i].What = fmt.Sprintf("%s\n%splan: %s", findings[i].What, a.Input, a.Plan)
 	}
 	sum := map[string]any{
-		"evals":        evals,
-		"distinct":     dl,
-		"per_balancer": per,
-		"per_sweep":    perSweep,
-		"bound":        fmt.Sprintf("members<=%d; full prior sweep: total partitions<=%d (<=%d at %d members); special-member sweep: <=%d; rack sweep (2 racks, all placements): <=%d; topics<=2 with 1..3 partitions; count-map insertion orders: %s. Complex-path sweep: %s", st.MaxMembers, st.FullTotal, st.FullTotalAtMax, st.MaxMembers, st.SpecialTotal, st.RacksTotal, map[int]string{0: "one per input, alternating", 1: "one", 2: "both for every input (alternating at 6 partitions)"}[st.Orders], cx.String()),
-		"samples":      samples,
-		"findings":     findings,
-		"wall_s":       time.Since(t0).Seconds(),
-		"blocks":       len(blocks),
-		"blocks_cut":   cutBlocks,
+		"evals":            evals,
+		"distinct":         dl,
+		"per_balancer":     per,
+		"per_sweep":        perSweep,
+		"bound":            fmt.Sprintf("members<=%d; full prior sweep: total partitions<=%d (<=%d at %d members); special-member sweep: <=%d; rack sweep (2 racks, all placements): <=%d; topics<=2 with 1..3 partitions; count-map insertion orders: %s. Complex-path sweep: %s", st.MaxMembers, st.FullTotal, st.FullTotalAtMax, st.MaxMembers, st.SpecialTotal, st.RacksTotal, map[int]string{0: "one per input, alternating", 1: "one", 2: "both for every input (alternating at 6 partitions)"}[st.Orders], cx.String()),
+		"samples":          samples,
+		"findings":         findings,
+		"wall_s":           time.Since(t0).Seconds(),
+		"blocks":           len(blocks),
+		"blocks_cut":       cutBlocks,
+		"distinct_dropped": dropped,
 		"extra": map[string]int64{
 			"cases_where_stays_put_oracle_applied":  stays,
 			"cases_with_uneven_subscriptions":       uneven,
